@@ -77,6 +77,19 @@ pub fn archive_bytes(n: usize, comp: u8) -> Vec<u8> {
     cur.into_inner()
 }
 
+/// tiles larger than typical buffer sizes (64 KiB and beyond, not multiples of it), the last one at the end of the file
+pub fn big_tile_archive() -> Vec<u8> {
+    let mut rng = Rng::new(9);
+    let mut pm = PMTiles::<std::io::Cursor<Vec<u8>>>::default();
+    pm.internal_compression = comp_of(2);
+    for (i, len) in [70_000usize, 65_536, 100_159, 10, 131_073, 8191, 65_537].iter().enumerate() {
+        pm.add_tile(100 + 3 * i as u64, rng.bytes(*len)).expect("add");
+    }
+    let mut cur = std::io::Cursor::new(Vec::new());
+    pm.to_writer(&mut cur).expect("write");
+    cur.into_inner()
+}
+
 fn header_value(h: &Header) -> Vec<u8> {
     let mut b = Vec::new();
     let _ = h.to_writer(&mut b);
@@ -128,7 +141,9 @@ pub fn scenarios(tier: &str) -> Vec<Scen> {
 /// `p0` = start position of the output stream (prefilled with 0xAB up to p0 + 40).
 pub fn run(s: &Scen, inp: &Shared, outp: &Shared, p0: u64) -> Outcome {
     let comp = comp_of(s.comp);
-    let mut out_stream = TStream::new(if p0 > 0 { vec![0xAB; p0 as usize + 40] } else { Vec::new() }, outp.clone());
+    // prefilled with marker bytes: 40 bytes beyond the start, or (odd start positions) far beyond the archive's end
+    let prefill = if p0 == 0 { 0 } else if p0 % 2 == 1 { p0 as usize + 300_000 } else { p0 as usize + 40 };
+    let mut out_stream = TStream::new(vec![0xAB; prefill], outp.clone());
     out_stream.pos = p0;
     let mut value = Vec::new();
     let is_async = s.is_async;
@@ -404,7 +419,7 @@ pub fn drive_sched(seed: u64, tier: &str, stim: Option<&str>, out: &mut Out) {
 pub fn drive_startpos(seed: u64, tier: &str, out: &mut Out) {
     let mut rng = Rng::new(seed ^ 0x5031);
     let mut ctx = Ctx::new();
-    let mut ps: Vec<u64> = vec![0, 1, 10, 127, 4096];
+    let mut ps: Vec<u64> = vec![0, 1, 10, 127, 4096, 4097];
     for _ in 0..(if tier == "thorough" { 8 } else { 3 }) {
         ps.push(rng.below(20_000));
     }
@@ -413,7 +428,7 @@ pub fn drive_startpos(seed: u64, tier: &str, out: &mut Out) {
         for &p in &ps {
             for is_async in [false, true] {
                 for exact_len in [false, true] {
-                    if n > 1000 && (exact_len || (p != 10 && p != 0 && p != 4096)) {
+                    if n > 1000 && (exact_len || (p != 10 && p != 0 && p != 4096 && p != 4097)) {
                         continue;
                     }
                     let s = Scen { name: format!("arch_write/c{c}/n{n}"), kind: "arch_write", comp: c, n, is_async };
